@@ -255,6 +255,33 @@ class ReplacementPatternFunction:
         )
 
 
+def _isolate_existing_outputs(
+    graph_or_function: ir.Graph | ir.Function, delta: ReplacementSubgraph
+) -> None:
+    """Handle replacements that return a value that exists already (as in ``x * 1 -> x``).
+
+    The new outputs take over the name, type and uses of the replaced outputs. An
+    existing value may do so only if it is an ordinary intermediate value of this graph:
+    a graph input, an initializer, a graph output or a value of an enclosing graph has to
+    keep its own name and owner, so the replaced output becomes an Identity of it.
+    """
+    graph = graph_or_function.graph if isinstance(graph_or_function, ir.Function) else graph_or_function
+    produced = {id(output) for node in delta.new_nodes for output in node.outputs}
+    new_nodes = list(delta.new_nodes)
+    new_outputs = list(delta.new_outputs)
+    for i, value in enumerate(new_outputs):
+        if value is None or id(value) in produced:
+            continue
+        producer = value.producer()
+        if producer is not None and producer.graph is graph and not value.is_graph_output():
+            continue
+        identity = ir.node("Identity", inputs=[value])
+        new_nodes.append(identity)
+        new_outputs[i] = identity.outputs[0]
+    delta.new_nodes = new_nodes
+    delta.new_outputs = new_outputs
+
+
 def _update_opset_imports(
     graph_or_function: ir.Graph | ir.Function, delta: ReplacementSubgraph
 ):
@@ -701,6 +728,7 @@ class RewriteRuleSet:
                 if delta is None or tracer is not None:
                     continue
                 assert isinstance(delta, ReplacementSubgraph)
+                _isolate_existing_outputs(graph_or_function, delta)
                 if delta.new_initializers:
                     if isinstance(graph_or_function, ir.Function):
                         # TODO(rama): Can't add initializers to functions. But currently this is not
